@@ -169,7 +169,7 @@ def main():
                        "sopht/simulator/flow/passive_transport_flow_simulators.py"])
     chk.maybe_replay()
     sopht_modules()
-    rts = ["float64"] if chk.quick else ["float64", "float32"]
+    rts = ["float64", "float32"]
     for rt in rts:
         for dim in (2, 3):
             for axis in "xyz"[:dim]:
